@@ -273,10 +273,49 @@ def _names_in(f, idx):
     return {f.nodes[i]['name'] for i in f.subtree(idx) if f.nodes[i]['k'] == 'ref'}
 
 
+def rule_r5(ck, prog, roles, rule='C01.R5'):
+    """nothing is lost while the queue has room: in every constructor the queue is created with the configured max_queue_size (and
+    the member the producers' wake-up threshold uses is that option too) - a queue sized from another option drops records
+    although max_queue_size has not been reached"""
+    rec = prog.record(roles.cls)
+    qfields = [fd['name'] for fd in rec['fields'] if 'CircularBuffer<' in fd['t']]
+    if not qfields:
+        raise AnalysisBroken('%s: queue member not found' % roles.short)
+    n = 0
+    for f in sorted([x for x in roles.funcs if x.kind == 'ctor' and x.cls == roles.cls], key=lambda x: x.key):
+        for b in f.blocks:
+            for e in b['el']:
+                if isinstance(e, dict) and e.get('init') == qfields[0] and 'e' in e:
+                    n += 1
+                    lv = leaves(f, e['e'])
+                    opt = lambda ls: {x[1] for x in ls if x[0] == 'memberof'} | {x[1] for x in ls if x[0] == 'param' and not any(y[0] == 'memberof' for y in ls)}
+                    names = opt(lv)
+                    # through a member that the same constructor initialises from the option, and that is declared (hence
+                    # initialised) before the queue
+                    order = [fd['name'] for fd in rec['fields']]
+                    for l in lv:
+                        if l[0] == 'field' and l[1].startswith('this.'):
+                            m = l[1].split('.', 1)[1]
+                            if m in order and order.index(m) < order.index(qfields[0]):
+                                for b2 in f.blocks:
+                                    for e2 in b2['el']:
+                                        if isinstance(e2, dict) and e2.get('init') == m and 'e' in e2:
+                                            names |= opt(leaves(f, e2['e']))
+                            else:
+                                names.add('member %s, which is initialised after the queue' % m)
+                    ok = 'max_queue_size' in names and len(names) == 1
+                    ck.verdict(ok, rule, f, 'queue-capacity-is-max_queue_size(%d params)' % len(f.params), None,
+                               'the queue is created with max_queue_size' if ok else
+                               'the queue is created from %s instead of max_queue_size: records are dropped as "queue full" although fewer than max_queue_size are waiting' % (sorted(names) or 'a constant'))
+    if not n:
+        raise AnalysisBroken('%s: no constructor initialises the queue member' % roles.short)
+
+
 def run(ck, prog):
     ck.doc('C01.R1', 'producer entry: at most one Add per path, no silent skip, Add behind the shutdown gate', 6)
     ck.doc('C01.R2', 'nothing reachable from the producer entry blocks or calls the exporter', 2)
     ck.doc('C01.R3', 'per-slot consume callback: slot taken exactly once, returns true, taken pointer goes to the exported container, container fresh per batch', 8)
+    ck.doc('C01.R5', 'every constructor creates the queue with the configured max_queue_size', 3)
     ck.doc('C01.R4', 'count handed to Consume derives from size() of the same queue / the batch bound', 2)
     from . import c02
     for rid, txt, m in (('C02.R1', 'pending flush ticket loaded before every queue snapshot', 4), ('C02.R2', 'publication of the notified counter: value, after Export, after exporter flush', 6),
@@ -297,6 +336,7 @@ def run(ck, prog):
         rule_r1(ck, prog, roles, producer)
         rule_r2(ck, prog, cg, roles, producer)
         rule_r3_r4(ck, prog, cg, roles)
+        rule_r5(ck, prog, roles)
         # "nothing is lost between two completed flushes" presupposes that a completed flush means what C02 says
         c02.rule_r1_r2(ck, prog, cg, roles)
     # prerequisites shared with C11: the structural rules of the queue the processors rely on
